@@ -5,7 +5,7 @@
     reserved-slot guard of [del] and the index arithmetic of [add] are the GENERATED functions of
     coq/Gen/SrcWaker.v.  Same assumption A-SC as C11. *)
 From Coq Require Import ZArith List Bool.
-From Stk Require Import Lib.U Gen.SrcWaker W.Waker W.WakerCore W.WakerRefine W.WakerProofs.
+From Stk Require Import Lib.U Gen.SrcWaker W.Waker W.WakerCore W.WakerRefine W.WakerProofs W.WakerDrop.
 Import ListNotations.
 Local Open Scope Z_scope.
 
@@ -38,3 +38,16 @@ Theorem C12_add_slots : forall st h st1 wi,
   (forall x h', slab_get (sl st1) x = Some h' -> slab_get (sl st) x = Some h' \/ (x = wbit wi /\ h' = h) \/ h' = HReserved).
 Proof. exact add_slots. Qed.
 Print Assumptions C12_add_slots.
+
+(** No drop notification is stranded.  Invariant [RInv] (every reachable state): if the drop list is
+    non-empty then a wake-up is owed to the drop handler (the reserved-slot handler, which runs
+    [process_waker_drops]) or the pushing thread is still about to set the reserved bit.  Hence, with C11:
+    in a quiescent state the drop list is empty - every drop that was pushed has been taken (and, the main
+    thread being outside [poll_wake], deleted and its handler called with deleted=true). *)
+Theorem C12_drop_list_covered : forall st, reachable st -> RInv st.
+Proof. exact reachable_R. Qed.
+Print Assumptions C12_drop_list_covered.
+
+Theorem C12_drops_not_stranded : forall st, reachable st -> quiescent st -> dl st = [].
+Proof. exact drops_not_stranded. Qed.
+Print Assumptions C12_drops_not_stranded.
